@@ -355,6 +355,7 @@ loop:
 	if err != nil {
 		return err, true
 	}
+	pc = len(env.codes)
 	return nil, false
 }
 
